@@ -190,6 +190,23 @@ def roundtrip2 (T : Tun) (hash : Nat → Nat) (s : St2) : Option St2 :=
   let (r, _, threw) := replay2 T hash medianOf fresh (s.tab.iterOrder T) []
   if threw then none else some { r with offset := s.offset, total := s.total }
 
+/-- `merge` / round trip with `is_empty()` as the source has it now (see `mergeF`) -/
+def merge2F (T : Tun) (hash : Nat → Nat) (choose : List Nat → Nat) (s o : St2) : St2 × List (Ent Nat) × Bool :=
+  if T.emptyByTotal then
+    if o.total = 0 then (s, [], false) else
+    let (r, log, threw) := replay2 T hash choose s (o.tab.iterOrder T) []
+    if threw then (r, log.reverse, true) else
+    ({ r with offset := r.offset + o.offset, total := s.total + o.total }, log.reverse, false)
+  else merge2 T hash choose s o
+
+def roundtrip2F (T : Tun) (hash : Nat → Nat) (s : St2) : Option St2 :=
+  if T.emptyByTotal then
+    if s.total = 0 then some { tab := Tab.mk' s.tab.lgCur s.tab.lgMax, offset := 0, total := 0 } else
+    let fresh : St2 := { tab := Tab.mk' s.tab.lgCur s.tab.lgMax, offset := 0, total := 0 }
+    let (r, _, threw) := replay2 T hash medianOf fresh (s.tab.iterOrder T) []
+    if threw then none else some { r with offset := s.offset, total := s.total }
+  else roundtrip2 T hash s
+
 /-- abstraction function L2 → L1 -/
 def abs2 (s : St2) : St Nat :=
   { map := s.tab.entries, offset := s.offset, total := s.total, lgCur := s.tab.lgCur, lgMax := s.tab.lgMax }
